@@ -162,6 +162,8 @@ func kindValOf(e sx.Sexp) (px.Value, bool) {
 			args = append(args, valOf(k))
 		}
 		return types.NewDeferred(a[0].MustStr(), args...), true
+	case "obj":
+		return objectOf(a), true
 	case "par":
 		var v px.Value
 		if a[2].IsList {
@@ -173,6 +175,9 @@ func kindValOf(e sx.Sexp) (px.Value, bool) {
 }
 
 func kindValStr(v px.Value) (string, bool) {
+	if s, ok := objectStr(v); ok {
+		return s, true
+	}
 	switch v := v.(type) {
 	case *types.SemVer:
 		ver := v.Version()
@@ -203,7 +208,7 @@ func kindValStr(v px.Value) (string, bool) {
 // noKeyTag: a value of this kind has no ToKey at all (px.ToKey reports INVALID_MAP_KEY), and neither has a container of one
 func noKeyTag(tag string) bool {
 	switch tag {
-	case "sens", "tn", "df", "par":
+	case "sens", "tn", "df", "par", "obj":
 		return true
 	}
 	return false
@@ -232,7 +237,7 @@ func keyableVal(v px.Value) bool {
 		v = h
 	}
 	switch v := v.(type) {
-	case *types.Sensitive, px.TypedName, types.Deferred, px.Parameter:
+	case *types.Sensitive, px.TypedName, types.Deferred, px.Parameter, px.PuppetObject:
 		return false
 	case *types.Array:
 		ok := true
@@ -259,6 +264,14 @@ func forceKind(v px.Value) {
 	case px.Parameter:
 		force(v.Value())
 		force(v.Type())
+	case px.PuppetObject:
+		if t, ok := v.PType().(px.ObjectType); ok && strings.HasPrefix(t.Name(), "Verif7::") {
+			for _, at := range t.AttributesInfo().Attributes() {
+				if e, ok := v.Get(at.Name()); ok {
+					force(e)
+				}
+			}
+		}
 	}
 }
 
@@ -445,6 +458,9 @@ func kindCore() []sx.Sexp {
 }
 
 func randKind(r *rand.Rand, depth int) sx.Sexp {
+	if r.Intn(6) == 0 {
+		return randObj(r, depth)
+	}
 	switch r.Intn(7) {
 	case 0:
 		for i := 0; i < 8; i++ {
@@ -480,6 +496,9 @@ func randKind(r *rand.Rand, depth int) sx.Sexp {
 
 // mutateKind: a one-point mutation / a related value of another shape; ok=false when the tag is not a new kind
 func mutateKind(r *rand.Rand, e sx.Sexp) (sx.Sexp, bool) {
+	if m, ok := mutateObj(r, e); ok {
+		return m, true
+	}
 	a := e.Args()
 	switch e.Tag() {
 	case "uri":
@@ -583,6 +602,9 @@ func mutateKind(r *rand.Rand, e sx.Sexp) (sx.Sexp, bool) {
 
 // equalKind: another spelling of an Equal value of a new kind
 func equalKind(r *rand.Rand, e sx.Sexp) (sx.Sexp, bool) {
+	if m, ok := equalObj(r, e); ok {
+		return m, true
+	}
 	a := e.Args()
 	switch e.Tag() {
 	case "tn":
